@@ -131,6 +131,11 @@ def eval_C19(item):
                     got = None if sel is None else int(sel.idx)
                     if got not in [c for c in cands if structs[c]['peaksub'][1] == best]:
                         res['pred'].append('picking lines of structures %r selected %r' % (cands, got))
+                    ans = drv.ask('pick ls=%s peaks=%s ind=%s' % (','.join(str(int(x.idx)) for x in lines.structures),
+                                                                  ','.join('%d:%d' % (c_, structs[c_]['peaksub'][1]) for c_ in sorted(structs)),
+                                                                  ','.join(str(i_) for i_ in inds)))
+                    if ans and ans[0].startswith('picked ') and ans[0][7:] != str(got):
+                        res['corr'].append('line pick %r: impl selected %r, model %s' % (inds, got, ans[0][7:]))
                     model_events.append('click.%d.%s' % (slot, got))
                     expect_first = got
                     if nd == 3 and v.slice_slider is not None and got is not None:
